@@ -39,7 +39,7 @@ func (e *Engine) Init(pkgPath string) (err error) {
 	// table-only dependency packages whose functions are interpreted: their initialisers must
 	// have run whichever way the harness package imports them (a skipped strings.init would
 	// otherwise leave unicode/utf8's decoding tables zero)
-	for _, dep := range []string{"unicode/utf8"} {
+	for _, dep := range []string{"unicode/utf8", "bytes"} {
 		if dp := e.prog.Pkgs[dep]; dp != nil {
 			if f := dp.Func("init"); f != nil {
 				e.call(f, nil, nil)
